@@ -2,6 +2,7 @@ SPECIFICATION Spec
 CONSTANTS Consts = {"a", "b", "c", "d", "e", "g"}
  MaxOps = 7
  Queries = FALSE
+ ChainMode = FALSE
  EmitAll = FALSE
 
 INVARIANT TestCorrect
